@@ -62,12 +62,12 @@ PROPS = {
         'not_covered': [],
     },
     'C14': {
-        'units': ['compare', 'subst', 'contexts_a'],
+        'units': ['compare', 'subst', 'contexts_a', 'operands'],
         'functions': ['built_in_comparison.rs::get_two_constants', 'built_in_comparison.rs::bip_equal',
                       'built_in_comparison.rs::bip_less_than', 'built_in_comparison.rs::bip_less_than_or_equal',
                       'built_in_comparison.rs::bip_greater_than', 'built_in_comparison.rs::bip_greater_than_or_equal',
                       'substitution_set.rs::get_constant', 'substitution_set.rs::get_ground_term'],
-        'oracles': {'*': 'c14_compare', '#infix_meaning': 'c14_infix', '#builtin_by_name': 'c14_infix', 'parse_goals.rs::parse_subgoal': 'c14_infix', 'parse_goals.rs::make_goal': 'c14_infix'},
+        'oracles': {'*': 'c14_compare', '#infix_meaning': 'c14_infix', '#builtin_by_name': 'c14_infix', 'parse_goals.rs::parse_subgoal': 'c14_infix', 'parse_goals.rs::make_goal': 'c14_infix', 'parse_goals.rs::get_left_and_right': 'c14_infix', '#operands_alone': 'c14_infix', '#operand_errors': 'c14_infix'},
         'bounded': [('c14_compare', 'all arms against Rust\'s own comparison of the converted operands (the proof of the integer/float arms is relative to the uninterpreted cast value i2f): 2815 operand pairs over extreme integers, -0.0, fractions, atoms, non-constants and variable chains')],
         'not_covered': [
             "'at most once' is the more_solutions flag of next_solution_bip: PROVED in unit solver (clause #once, C05 / C04: a built-in predicate is spent after one request)",
@@ -150,12 +150,12 @@ PROPS['C10'] = {
 }
 
 PROPS['C12'] = {
-    'units': ['arith', 'contexts_a'],
+    'units': ['arith', 'contexts_a', 'operands'],
     'functions': ['built_in_arithmetic.rs::get_numbers', 'built_in_arithmetic.rs::get_integers', 'built_in_arithmetic.rs::get_floats',
                   'built_in_arithmetic.rs::evaluate_add', 'built_in_arithmetic.rs::evaluate_subtract',
                   'built_in_arithmetic.rs::evaluate_multiply', 'built_in_arithmetic.rs::evaluate_divide',
                   ],
-    'oracles': {'*': 'c12_arith', '#meaning': 'c14_infix', '#flags_inv': 'c14_infix'},
+    'oracles': {'*': 'c12_arith', '#meaning': 'c14_infix', '#flags_inv': 'c14_infix', 'parse_goals.rs::get_left_and_right': 'c14_infix', '#operands_alone': 'c14_infix', '#operand_errors': 'c14_infix'},
     'bounded': [('c12_arith', 'evaluate_add / subtract / multiply / divide against the left-to-right fold computed with Rust\'s own f64 / i64 operators (the proof is relative to vstd\'s uninterpreted f64 operations '
                               'and to i2f): all 1- and 2-argument lists over a pool of 20 extreme integers and floats, '
                               '600 seeded lists of 3-4 arguments per operation (literal, through bound variables, through variable chains), and 2-operand infix forms through parse_term')],
